@@ -12,6 +12,24 @@ structure Signable (w : World) (tx : Tx) : Prop where
   noCode : (w.acct tx.sender).code = false
   fresh : tx.recipient = none → tx.newAddr ≠ tx.sender
 
+/-- What the conservation proof actually uses of the sender — `Signable` cut down to the one transaction
+shape each clause is needed for (each clause is *necessary*: `Props/C01.lean` has a model-level witness
+of a lost or minted balance when it is dropped):
+* `notName`: a governance tx *to aergo.name* is not sent *by* aergo.name (sender and receiver would be two
+  records of one account, both `PutState`d by the name contract's code);
+* `noCode`: a tx whose recipient is its own sender is not sent by a contract (the VM would run on two
+  records of one account);
+* `fresh`: the address of a contract the tx deploys is not the sender's own.
+All three are facts about a *signed* transaction (C04): the account of a signed tx is the address of a
+secp256k1 key, while "aergo.name" is a 10-byte name, a contract address is a hash with prefix 0x0C. -/
+structure SenderOK (w : World) (tx : Tx) : Prop where
+  notName : tx.type = .governance → tx.recipient = some aName → tx.sender ≠ aName
+  noCode : tx.recipient = some tx.sender → (w.acct tx.sender).code = false
+  fresh : tx.recipient = none → tx.newAddr ≠ tx.sender
+
+theorem Signable.senderOK {w : World} {tx : Tx} (h : Signable w tx) : SenderOK w tx :=
+  ⟨fun _ _ => h.notName, fun _ => h.noCode, h.fresh⟩
+
 theorem resetAccount_some {cp : Copy} {fee : Nat} {n : Option Nat} {a : Acct}
     (h : resetAccount cp (some fee) n = some a) : fee ≤ cp.old.bal ∧ a.bal = cp.old.bal - fee := by
   unfold resetAccount at h
@@ -256,15 +274,16 @@ theorem mkReceiver_spec {w : World} {tx : Tx} {rcv : Copy} {st : Status} (h : mk
     · cases h
     · cases h; simp [hr]
 
-/-- A fee-delegation transaction is accepted by the real `CheckFeeDelegation` only if its recipient is a
-contract (it looks up the ABI and the code); the stub accepts everything. -/
+/-- A fee-delegation transaction is accepted by `CheckFeeDelegation` only if its recipient is a contract
+(`GetABI` → "cannot find contract"); the model carries that check (`executeTx`, FEEDELEGATION case), so
+this is a *theorem* about executed transactions now (`fdTarget_enforced`), no longer a hypothesis. -/
 def FdTarget (w : World) (tx : Tx) : Prop :=
   tx.type = .feeDelegation → ∀ r, tx.recipient = some r → (w.acct r).code = true
 
 /-- **Σ balances + BpReward is invariant under `executeTx`**, for every transaction type and outcome,
 outside the defect shape flagged `leak`. -/
 theorem executeTx_total' {c : Ctx} {w : World} {bp : Nat} {tx : Tx} {res : Result}
-    (hsig : Signable w tx) (hfd : FdTarget w tx)
+    (hsig : SenderOK w tx)
     (h : executeTx c w bp tx = res) (hl : res.leak = false) :
     res.w.total + res.bp = w.total + bp := by
   unfold executeTx at h
@@ -321,7 +340,7 @@ theorem executeTx_total' {c : Ctx} {w : World} {bp : Nat} {tx : Tx} {res : Resul
                 rename_i hrc
                 have hrid : rcv.id = aName := (m3 _ hrc).1
                 have hne : (w.getCopy tx.sender).id ≠ rcv.id := by
-                  rw [getCopy_id, hrid]; exact hsig.notName
+                  rw [getCopy_id, hrid]; exact hsig.notName hty hrc
                 have := execName_total (bp := bp) (st := st) rfl herr hsc m1 hne
                 rw [(successBranch_w _ _ _ _ _ _ _).2.1]
                 omega
@@ -333,21 +352,25 @@ theorem executeTx_total' {c : Ctx} {w : World} {bp : Nat} {tx : Tx} {res : Resul
             · rename_i hmf
               split at h
               · subst h; rfl
-              · subst h
-                -- the recipient is a contract, the sender is not: two different accounts
-                have hne : (w.getCopy tx.sender).id ≠ rcv.id := by
-                  rw [getCopy_id]
-                  intro e
-                  cases hr : tx.recipient with
-                  | none =>
-                    have := m4 hr
-                    exact hsig.fresh hr (by rw [← this, ← e])
-                  | some r =>
-                    have h1 := (m3 r hr).1
-                    have h2 := hfd hty r hr
-                    rw [← h1, ← e, hsig.noCode] at h2
-                    cases h2
-                exact finishVm_total hsc hso m1 m2 hne (by simp) (fun _ => base_le_maxFee hmf) hl
+              · rename_i hcode
+                split at h
+                · subst h; rfl
+                · subst h
+                  -- CheckFeeDelegation: the recipient is a contract; the sender of a tx to itself is not:
+                  -- two different accounts
+                  have hne : (w.getCopy tx.sender).id ≠ rcv.id := by
+                    rw [getCopy_id]
+                    intro e
+                    cases hr : tx.recipient with
+                    | none =>
+                      have := m4 hr
+                      exact hsig.fresh hr (by rw [← this, ← e])
+                    | some r =>
+                      have h1 := (m3 r hr).1
+                      have h2 : rcv.cur.code = true := by simpa using hcode
+                      rw [m1, ← e, hsig.noCode (by rw [hr, ← h1, ← e])] at h2
+                      cases h2
+                  exact finishVm_total hsc hso m1 m2 hne (by simp) (fun _ => base_le_maxFee hmf) hl
           · -- NORMAL / TRANSFER / CALL / DEPLOY / REDEPLOY
             rename_i hng hnf
             subst h
@@ -358,7 +381,16 @@ theorem executeTx_total' {c : Ctx} {w : World} {bp : Nat} {tx : Tx} {res : Resul
             by_cases hne : (w.getCopy tx.sender).id = rcv.id
             · -- the sender pays itself
               refine finishVm_self_total hsc hso m2 hne ?_ ?_ ?_
-              · rw [m1, ← hne, getCopy_id]; exact hsig.noCode
+              · rw [m1, ← hne, getCopy_id]
+                cases hr : tx.recipient with
+                | none =>
+                  have := m4 hr
+                  rw [getCopy_id] at hne
+                  exact absurd (by rw [← this, ← hne]) (hsig.fresh hr)
+                | some r =>
+                  have h1 := (m3 r hr).1
+                  rw [getCopy_id] at hne
+                  exact hsig.noCode (by rw [hr, hne, h1])
               · cases hr : tx.recipient with
                 | none =>
                   have := m4 hr
@@ -371,9 +403,36 @@ theorem executeTx_total' {c : Ctx} {w : World} {bp : Nat} {tx : Tx} {res : Resul
 /-- **Σ balances + BpReward is invariant under `executeTx`**, for every transaction type and outcome,
 outside the defect shape flagged `leak`. -/
 theorem executeTx_total {c : Ctx} {w : World} {bp : Nat} {tx : Tx}
-    (hsig : Signable w tx) (hfd : FdTarget w tx)
+    (hsig : SenderOK w tx)
     (hl : (executeTx c w bp tx).leak = false) :
     (executeTx c w bp tx).w.total + (executeTx c w bp tx).bp = w.total + bp :=
-  executeTx_total' hsig hfd rfl hl
+  executeTx_total' hsig rfl hl
+
+/-- **`FdTarget` is enforced, not assumed**: a fee-delegation transaction whose recipient holds no code is
+rejected (`CheckFeeDelegation` → `GetABI`: "cannot find contract") — so every fee-delegation tx that is
+executed (applied or failed with a receipt) went to a contract. -/
+theorem fdTarget_enforced {c : Ctx} {w : World} {bp : Nat} {tx : Tx}
+    (hr : ∀ e, (executeTx c w bp tx).outcome ≠ .rejected e) : FdTarget w tx := by
+  intro hty r hrc
+  by_cases hcode : (w.acct r).code = true
+  · exact hcode
+  · exfalso
+    have hc : (w.acct r).code = false := by simpa using hcode
+    generalize hres : executeTx c w bp tx = res at hr
+    unfold executeTx at hres
+    simp only [] at hres
+    split at hres
+    · subst hres; exact hr _ rfl
+    · split at hres
+      · subst hres; exact hr _ rfl
+      · rw [if_neg (by simp [hty])] at hres
+        have hmk : mkReceiver w tx = .ok (w.getCopy r, .success) := by
+          simp [mkReceiver, hrc, hty]
+        rw [hmk] at hres
+        simp only [hty] at hres
+        split at hres
+        · subst hres; exact hr _ rfl
+        · simp [hc] at hres
+          subst hres; exact hr _ rfl
 
 end Aergo.Ledger
